@@ -44,9 +44,11 @@ MkFrame(g, q, ply, d, a, b, how) ==
 \*   quiescence_search(): fifty moves, threefold, dead material (not single repetition); or no legal move
 DrawnHere(f) == IF f.q = 0 THEN f.ply > 0 /\ (Repeated(f.g) \/ IsDraw(f.g)) ELSE IsDraw(f.g)
 Terminal(f) == DrawnHere(f) \/ f.legal = {}
-\* the value the rules dictate (draw test first, as in the code).  quiescence_search() stands pat before it generates moves,
-\* so a stalemated quiescence node is not obliged to return the draw value (RuleDecides is false there).
-RuleValue(f) == IF DrawnHere(f) THEN 0 ELSE IF f.chk THEN LostIn(0) ELSE 0
+\* the value the rules dictate: checkmate ends the game before any draw can be claimed (a mate delivered by the move that completes
+\* the fifty moves stands - search.cpp looks at a side in check before it scores the fifty-move draw), otherwise a draw by rule,
+\* otherwise stalemate.  quiescence_search() stands pat before it generates moves, so a stalemated quiescence node is not obliged to
+\* return the draw value (RuleDecides is false there).
+RuleValue(f) == IF f.legal = {} /\ f.chk THEN LostIn(0) ELSE 0
 RuleDecides(f) == IF f.q = 0 THEN Terminal(f) ELSE f.d > 0 /\ (DrawnHere(f) \/ (f.legal = {} /\ f.chk))
 
 \* ---------------------------------------------------------------- root entries
